@@ -111,8 +111,8 @@ var c10Keys = map[string]c10Key{
 	"wrong-passphrase":            {file: "privkey.asc", pub: "pubkey", givePass: "hunter3", passVar: "NFPM_PASSPHRASE", wantFail: true},
 	"no-passphrase":               {file: "privkey.asc", pub: "pubkey", wantFail: true},
 	"multiple-keys":               {file: "multiple_privkeys.asc", pub: "pubkey", wantFail: true},
-	"keyid-primary-upper": {file: "privkey_unprotected.asc", pub: "pubkey", keyID: "bc8acdd415bd80b3", cfgKeyID: "BC8ACDD415BD80B3"},
-	"keyid-subkey-mixed":  {file: "privkey_unprotected.asc", pub: "pubkey", keyID: "9890904dfb2ec88a", cfgKeyID: "9890904DfB2eC88A"},
+	"keyid-primary-upper":         {file: "privkey_unprotected.asc", pub: "pubkey", keyID: "bc8acdd415bd80b3", cfgKeyID: "BC8ACDD415BD80B3"},
+	"keyid-subkey-mixed":          {file: "privkey_unprotected.asc", pub: "pubkey", keyID: "9890904dfb2ec88a", cfgKeyID: "9890904DfB2eC88A"},
 	"keyid-invalid":               {file: "privkey_unprotected.asc", pub: "pubkey", keyID: "xyz", wantFail: true},
 	// a valid id behind garbage, a valid id with something appended, more than 64 bits of hex
 	"keyid-garbage-prefix":  {file: "privkey_unprotected.asc", pub: "pubkey", keyID: "not-a-key-id-bc8acdd415bd80b3", wantFail: true},
@@ -127,11 +127,11 @@ var c10Keys = map[string]c10Key{
 	"keyid-decimal":         {file: "decimal_priv.asc", pub: "decimal_pub", keyID: "4399095419976992"},
 	"decimal-no-keyid":      {file: "decimal_priv.asc", pub: "decimal_pub"},
 	// the key file reached through a symbolic link (a mounted secret)
-	"expired-subkey":        {file: "GENSUB:expired", pub: "pubkey"},
-	"armored-symlink":       {file: "LINK:privkey_unprotected.asc", pub: "pubkey"},
-	"protected-symlink":     {file: "LINK:privkey.asc", pub: "pubkey", givePass: "hunter2", passVar: "FORMAT"},
-	"pkcs1-symlink":         {file: "LINK:rsa_unprotected.priv", pub: "rsa_unprotected.pub", apk: true},
-	"pkcs1":                 {file: "rsa_unprotected.priv", pub: "rsa_unprotected.pub", apk: true},
+	"expired-subkey":    {file: "GENSUB:expired", pub: "pubkey"},
+	"armored-symlink":   {file: "LINK:privkey_unprotected.asc", pub: "pubkey"},
+	"protected-symlink": {file: "LINK:privkey.asc", pub: "pubkey", givePass: "hunter2", passVar: "FORMAT"},
+	"pkcs1-symlink":     {file: "LINK:rsa_unprotected.priv", pub: "rsa_unprotected.pub", apk: true},
+	"pkcs1":             {file: "rsa_unprotected.priv", pub: "rsa_unprotected.pub", apk: true},
 	// the private key followed by its public key in one file (as `openssl genrsa; openssl rsa -pubout >>` leaves it)
 	"pkcs1-then-public":     {file: "CONCAT:rsa_unprotected.priv+rsa_unprotected.pub", pub: "rsa_unprotected.pub", apk: true},
 	"pkcs8":                 {file: "rsa_pkcs8.priv", pub: "rsa_pkcs8.pub", apk: true},
